@@ -1800,6 +1800,146 @@ def run_shared_contracts(ck, it, rng, n, label="shared-contracts"):
     return bad
 
 
+# ---- both operands DERIVED FROM ONE SHARED VALUE (the same let-bound base on both sides) under
+# different pending contracts: the operands share thunks / inline values, their contracts differ
+def sv_paths(d, path=()):
+    """Paths (tuples of ("f", key) / ("e",) steps) to every sub-value reachable through record
+    fields and array elements (an ("e",) step addresses ALL elements of an array)."""
+    yield path, d
+    if d[0] == "r":
+        for key, v in d[1]:
+            yield from sv_paths(v, path + (("f", key),))
+    elif d[0] == "a" and d[1] and all(x[0] == d[1][0][0] for x in d[1]):
+        # uniform arrays only: the element contract must fit every element
+        yield path + (("e",),), d[1][0]
+
+
+def sv_apply(d, path, fn):
+    """The data after the function is applied at the path (to every element for an ("e",) step)."""
+    if not path:
+        return fn(d)
+    step = path[0]
+    if step[0] == "f":
+        return ("r", [(k, sv_apply(v, path[1:], fn) if k == step[1] else v) for k, v in d[1]])
+    return ("a", [sv_apply(x, path[1:], fn) for x in d[1]])
+
+
+def sv_contract(rng, target):
+    """(nickel text of a contract, function on data) fitting a sub-value of the target's kind;
+    mostly value-changing, with a parameter so that the two sides can differ."""
+    k = target[0]
+    if k == "n":
+        m = rng.choice([1, 2, 3, -1])
+        if m == 1 and rng.chance(1, 2):
+            return "Number", lambda d: d
+        return "(std.contract.custom (fun _l v => 'Ok (v * %s)))" % ("(%d)" % m), lambda d: ("n", d[1] * m, d[2], d[3])
+    if k == "s":
+        suf = rng.choice(["", "x", "yy"])
+        if not suf:
+            return "String", lambda d: d
+        return "(std.contract.custom (fun _l v => 'Ok (v ++ \"%s\")))" % suf, lambda d: ("s", d[1] + suf)
+    if k == "r":
+        dflt = rng.range(1, 3)
+        if any(key == "zz" for key, _ in target[1]):
+            return "Dyn", lambda d: d
+        return "{zz | default = %d, ..}" % dflt, lambda d: ("r", d[1] + [("zz", ("n", dflt, 1, 0))])
+    return "Dyn", lambda d: d
+
+
+def sv_wrap(path, inner):
+    """The contract to apply to the base so that `inner` lands at the path."""
+    txt = inner
+    for step in reversed(path):
+        txt = "{\"%s\" | %s, ..}" % (step[1], txt) if step[0] == "f" else "(Array %s)" % txt
+    return txt
+
+
+def sv_side(rng, base, targets):
+    """One operand derived from `base` (bound to the identifier base): (text, denoted data)."""
+    den, txt = base, "base"
+    if base[0] == "r" and rng.chance(1, 5) and not any(k == "zq" for k, _ in base[1]):
+        txt, den = "(base & {zq = 7})", ("r", base[1] + [("zq", ("n", 7, 1, 0))])
+    c = rng.below(10)
+    if c == 0 or not targets:
+        return txt, den                                  # the base itself / only extended
+    path, target = rng.choice(targets)
+    ctr, fn = sv_contract(rng, target)
+    den = sv_apply(den, path, fn)
+    if path and path[0][0] == "f" and len(path) == 1 and c < 4:
+        return "(%s & {\"%s\" | %s})" % (txt, path[0][1], ctr), den          # merge with a contract-only field
+    if path and path[0][0] == "f" and base[0] == "r" and len(base[1]) == 1 and txt == "base" and c < 6:
+        return "(%s | {_ | %s})" % (txt, sv_wrap(path[1:], ctr)), den          # dictionary contract
+    return "(%s | %s)" % (txt, sv_wrap(path, ctr)), den
+
+
+def gen_shared_value_case(rng, base=None):
+    if base is None:
+        for _ in range(20):
+            base = gen_dv(rng, rng.range(1, 3))
+            if base[0] in ("r", "a") and len(list(sv_paths(base))) > 1:
+                break
+        else:
+            base = ("r", [("a", ("r", [("y", ("n", 0, 1, 0))])), ("b", ("n", 1, 1, 0))])
+    targets = [(p, t) for p, t in sv_paths(base) if p and t[0] in ("n", "s", "r")]
+    if rng.chance(1, 2) and targets:          # both sides act on the same place (the sharpest case)
+        targets = [rng.choice(targets)]
+    s1, d1 = sv_side(rng, base, targets)
+    s2, d2 = sv_side(rng, base, targets)
+    shape = rng.below(4)
+    wrap = [lambda t: t, lambda t: "[%s]" % t, lambda t: "{w = %s}" % t, lambda t: "('T %s)" % t][shape]
+    return {"prefix": "let base = %s in " % dv_nickel(base), "s1": wrap(s1), "s2": wrap(s2),
+            "z1": wrap(dv_nickel(d1)), "z2": wrap(dv_nickel(d2)), "same": dv_canon(d1) == dv_canon(d2)}
+
+
+def run_shared_values(ck, it, rng, n, label="shared-values", bases=None):
+    """Laws, agreement with the interpreter's canonical trees and transitivity through written-out
+    literals, for two operands derived from one shared value under different pending contracts."""
+    cases = [gen_shared_value_case(rng, rng.choice(bases) if bases else None) for _ in range(n)]
+    body = "let s1 = %s in let s2 = %s in let z1 = %s in let z2 = %s in "
+    outs = it.eval_many(["(%s%s[s1 == s2, s2 == s1, s1 == z1, z1 == s1, s2 == z2, z2 == s2, z1 == z2, s1 == s1, s2 == s2, z1 == s2, s1 == z2])" % (
+        c["prefix"], body % (c["s1"], c["s2"], c["z1"], c["z2"])) for c in cases])
+    itf = Interp(ck, flags="full", batch=it.batch)
+    trees = itf.eval_many(["(%s[%s, %s, %s, %s])" % (c["prefix"], c["s1"], c["s2"], c["z1"], c["z2"]) for c in cases])
+    it.programs += itf.programs
+    bad = 0
+    for c, o, t in zip(cases, outs, trees):
+        ck.case(key=c["prefix"] + c["s1"] + c["s2"], nontrivial=True)
+        ck.hist("equality_cases", label)
+        ck.hist("shared_value_expected", "equal" if c["same"] else "different")
+        o = norm_impl(o or "<none>")
+        ts = split_top(t[4:-1]) if t and t.startswith("OK [") else None
+        ok = o.startswith("OK [") and ts is not None and len(ts) == 4
+        if ok:
+            v = [b == "true" for b in split_top(o[4:-1])]
+            same = c["same"]
+            ok = (v[0] == same and v[1] == same and v[2] and v[3] and v[4] and v[5] and v[6] == same and v[7] and v[8]
+                  and v[9] == same and v[10] == same and ts[0] == ts[2] and ts[1] == ts[3] and (ts[0] == ts[1]) == same)
+        if not ok:
+            bad += 1
+            if bad <= 2:
+                named = [("s1", c["s1"]), ("s2", c["s2"]), ("z1", c["z1"]), ("z2", c["z2"])]
+                if not law_battery(ck, it, named, label, prefix=c["prefix"]):
+                    ck.violation("eq-pending-contracts", "== on two values derived from one base under different pending contracts: [s1==s2, s2==s1, s1==z1, z1==s1, s2==z2, z2==s2, z1==z2, s1==s1, s2==s2, z1==s2, s1==z2] = %s, trees %s, denote the same data: %s -- with %s s1 = %s ; s2 = %s ; z1 = %s ; z2 = %s" % (
+                        o, t, c["same"], c["prefix"], c["s1"], c["s2"], c["z1"], c["z2"]),
+                        {"kind": "equality", "prefix": c["prefix"], "a": c["s1"], "b": c["s2"], "c": c["z2"], "key": "eq-pending-contracts"})
+    return bad
+
+
+def xv_strip(x):
+    """The raw data under an extended value (contracts dropped, undefined fields dropped, erroring
+    elements replaced): the shape used to derive shared-base cases around a disagreement."""
+    k = x[0]
+    if k == "bot":
+        return ("n", 0, 1, 0)
+    if k == "v":
+        return ("v", x[1], xv_strip(x[2]))
+    if k == "a":
+        return ("a", [xv_strip(y) for y in x[2]])
+    if k == "r":
+        return ("r", [(key, xv_strip(v)) for key, opt, cs, v in x[1] if v is not None])
+    return x
+
+
 def xv_permute(rng, x):
     k = x[0]
     if k == "v":
@@ -1826,6 +1966,12 @@ def search_equality(ck, it, rng, disagreements, label):
         hits += run_changing_contracts(ck, it, 1200, "search:value-changing-contracts")(rng.fork())
     if not hits:
         hits += run_shared_contracts(ck, it, rng.fork(), 1200, "search:shared-contracts")
+    if not hits:      # both operands derived from one shared base with the shapes of the disagreeing pairs
+        bases = [d for d in [xv_strip(v) for pr in disagreements[:8] for v in pr] if d[0] in ("r", "a") and len(list(sv_paths(d))) > 1]
+        if bases:
+            hits += run_shared_values(ck, it, rng.fork(), 600, "search:shared-values-around-disagreement", bases=bases)
+    if not hits:
+        hits += run_shared_values(ck, it, rng.fork(), 1200, "search:shared-values")
     ck.coverage["search"] = "ran after %d model/interpreter disagreement(s) on ==: %s" % (
         len(disagreements), "a law fails on the interpreter" if hits else "no law failure found on the interpreter")
 
@@ -2009,6 +2155,7 @@ def run(ck):
     # 6. pending contracts that change the value (defaults): laws and canonical-tree agreement on the interpreter alone
     run_changing_contracts(ck, it, 400 if quick else 8000)(rng.fork())
     run_shared_contracts(ck, it, rng.fork(), 500 if quick else 10000)
+    run_shared_values(ck, it, rng.fork(), 500 if quick else 10000)
     ck.coverage["interpreter_programs"] = it.programs
     ck.coverage["rule"] = ("numeric: every p/q with |p|<=%d, q<=%d in every spelling (fraction, integer, decimal, exponent-, exponent+, leading zeros, E+0, leading dot) "
                            "x unary std functions; pairs x {+,-,*,/,%%,<,<=,>,>=,==,!=,min,max,compare,pow} (thorough: all pairs; quick: seeded sample); "
